@@ -6,7 +6,9 @@ vector tables, unusable hyper-parameter objects, and a per-file byte budget set
 with RLIMIT_FSIZE *inside the conversion workers* (wrapper around
 pyndl.preprocess._job_binary_event_file, inherited through fork).
 """
+import contextlib
 import gzip
+import io
 import os
 import resource
 import time
@@ -47,7 +49,35 @@ def _table(names, n_dims, kind):
                         coords={'outcomes': names, 'outcome_vector_dimensions': ['od%d' % j for j in range(n_dims)]})
 
 
+def _bad_weights(learner, shape, cue_names, out_names):
+    """a DataArray laid out like the learner's own result, except for `shape`"""
+    rows, row_dim = ((['od0', 'od1'], 'outcome_vector_dimensions') if learner in ('wh_r2r', 'wh_b2r', 'wh_numpy')
+                     else (list(out_names), 'outcomes'))
+    cols, col_dim = ((['cd0', 'cd1', 'cd2'], 'cue_vector_dimensions') if learner in ('wh_r2r', 'wh_r2b', 'wh_numpy')
+                     else (list(cue_names), 'cues'))
+    if shape == 'extra_vector_dim':
+        # one vector dimension more than the tables have
+        if row_dim.endswith('dimensions'):
+            rows = rows + ['od2']
+        else:
+            cols = cols + ['cd3']
+    elif shape == 'transposed':
+        rows, row_dim, cols, col_dim = cols, col_dim, rows, row_dim
+    elif shape == 'ndarray':
+        return np.zeros((len(rows), len(cols)))
+    else:
+        raise RuntimeError('bad shape')
+    return xr.DataArray(np.zeros((len(rows), len(cols))), dims=(row_dim, col_dim), coords={row_dim: rows, col_dim: cols})
+
+
 _PARAMS = {'str': '0.5', 'none': None, 'list': [0.5], 'bytes': b'1'}
+# the `betas` argument as a whole (documented: (float, float))
+_BETAS = {'pair_none': (0.5, None), 'scalar': 0.5, 'triple': (0.5, 0.25, 0.25), 'beta2_str': (0.5, '0.25'),
+          'none_pair': (None, 0.25)}
+# lines that are put into an otherwise well-formed file; the third column is the frequency
+_BAD_LINES = {'one_col': 'justonecolumn', 'four_cols': 'a\tb\t1\textra', 'empty': '',
+              'freq_word': 'a\tx\tfoo', 'freq_float': 'a\tx\t1.5', 'freq_negative': 'a\tx\t-1',
+              'freq_empty': 'a\tx\t'}
 
 
 def op_fault_run(t):
@@ -60,8 +90,8 @@ def op_fault_run(t):
         events = [(list(c), list(o)) for c, o in t['events']]
         lines = ['cues\toutcomes'] + ['_'.join(c) + '\t' + '_'.join(o) for c, o in events]
         if kind == 'bad_line':
-            bad = {'one_col': 'justonecolumn', 'four_cols': 'a\tb\t1\textra', 'empty': ''}[fault['shape']]
-            lines.insert(1 + fault['pos'], bad)
+            # pos = len(events) puts the line behind the last event (the end of the file)
+            lines.insert(1 + fault['pos'], _BAD_LINES[fault['shape']])
         if kind == 'all_bad':
             # a file in a different format altogether (comma separated): every line is malformed,
             # so every counting / conversion worker fails at once
@@ -77,7 +107,10 @@ def op_fault_run(t):
             else:
                 out_names = [o for o in out_names if o != fault['name']]
         alpha, b1, b2, lam, eta = 0.25, 0.5, 0.25, 1.0, 0.25
-        if kind == 'bad_param':
+        betas = None
+        if kind == 'bad_param' and fault['which'] == 'betas':
+            betas = _BETAS[fault['value']]
+        elif kind == 'bad_param':
             v = _PARAMS[fault['value']]
             if fault['which'] == 'alpha':
                 alpha = v
@@ -92,6 +125,20 @@ def op_fault_run(t):
                   remove_duplicates=policy, events_per_temporary_file=int(t.get('per_file', 10000000)))
         if t.get('given_tmp'):
             kw['temporary_directory'] = cd.given_tmp
+        if betas is None:
+            betas = (b1, b2)
+        vkw = {'verbose': True} if t.get('verbose') else {}     # X1; the output is captured below
+        kw.update(vkw)
+        method = None
+        wkw = {}
+        if kind == 'bad_method':
+            # a method name no learner knows: found only after counting and after the chunk files exist
+            method = fault['method']
+        if kind == 'per_job_zero':
+            kw['n_outcomes_per_job'] = 0
+        if kind == 'bad_weights':
+            # a `weights` array that does not fit the vector tables of this call (wh flavours only)
+            wkw['weights'] = _bad_weights(learner, fault['shape'], cue_names, out_names)
         arg = path
         if t.get('form') == 'generator':
             if kind == 'gen_raises':
@@ -113,26 +160,35 @@ def op_fault_run(t):
         if kind == 'storage':
             _BUDGET = int(fault['budget'])
             preprocess._job_binary_event_file = _limited_job
+        if method is not None and learner not in ('dict_ndl', 'dict_wh'):
+            kw['method'] = method
+        elif learner in ('ndl_threading', 'ndl_openmp'):
+            kw['method'] = learner[4:]
         t0 = time.time()
         res = {}
+        captured = io.StringIO()
         try:
-            if learner == 'dict_ndl':
-                w = ndl.dict_ndl(arg if t.get('form') != 'list' else events, alpha, (b1, b2), lam, remove_duplicates=policy)
-            elif learner in ('ndl_threading', 'ndl_openmp'):
-                w = ndl.ndl(arg, alpha, (b1, b2), lam, method=learner[4:], **kw)
-            elif learner == 'wh_r2r':
-                w = wh.wh(path, eta, cue_vectors=_table(cue_names, 3, 'cue'), outcome_vectors=_table(out_names, 2, 'out'), **kw)
-            elif learner == 'wh_b2r':
-                w = wh.wh(path, eta, outcome_vectors=_table(out_names, 2, 'out'), **kw)
-            elif learner == 'wh_r2b':
-                w = wh.wh(path, eta, cue_vectors=_table(cue_names, 3, 'cue'), **kw)
-            elif learner == 'wh_numpy':
-                w = wh.wh(path, eta, cue_vectors=_table(cue_names, 3, 'cue'), outcome_vectors=_table(out_names, 2, 'out'),
-                          method='numpy', remove_duplicates=policy)
-            elif learner == 'dict_wh':
-                w = wh.dict_wh(path, eta, _table(cue_names, 3, 'cue'), _table(out_names, 2, 'out'), remove_duplicates=policy)
-            else:
-                raise RuntimeError('unknown learner')
+            with contextlib.redirect_stdout(captured):
+                if learner == 'dict_ndl':
+                    w = ndl.dict_ndl(arg if t.get('form') != 'list' else events, alpha, betas, lam, remove_duplicates=policy,
+                                     **vkw)
+                elif learner in ('ndl_threading', 'ndl_openmp'):
+                    w = ndl.ndl(arg, alpha, betas, lam, **kw)
+                elif learner == 'wh_r2r':
+                    w = wh.wh(path, eta, cue_vectors=_table(cue_names, 3, 'cue'), outcome_vectors=_table(out_names, 2, 'out'),
+                              **wkw, **kw)
+                elif learner == 'wh_b2r':
+                    w = wh.wh(path, eta, outcome_vectors=_table(out_names, 2, 'out'), **wkw, **kw)
+                elif learner == 'wh_r2b':
+                    w = wh.wh(path, eta, cue_vectors=_table(cue_names, 3, 'cue'), **wkw, **kw)
+                elif learner == 'wh_numpy':
+                    w = wh.wh(path, eta, cue_vectors=_table(cue_names, 3, 'cue'), outcome_vectors=_table(out_names, 2, 'out'),
+                              method=method or 'numpy', remove_duplicates=policy, **wkw, **vkw)
+                elif learner == 'dict_wh':
+                    w = wh.dict_wh(path, eta, _table(cue_names, 3, 'cue'), _table(out_names, 2, 'out'), remove_duplicates=policy,
+                                   **vkw)
+                else:
+                    raise RuntimeError('unknown learner')
             res = {'outcome': 'Returned', 'all_zero': bool(not np.asarray(getattr(w, 'values', [1])).any())
                    if hasattr(w, 'values') else False}
         except AssertionError as e:
@@ -143,6 +199,8 @@ def op_fault_run(t):
         finally:
             preprocess._job_binary_event_file = _REAL_JOB
         res['seconds'] = round(time.time() - t0, 2)
+        if t.get('verbose'):
+            res['printed_chars'] = len(captured.getvalue())
         res['leftovers'] = cd.leftovers()
         res['file_unchanged'] = (sha(path) == before)
         return res
